@@ -1,6 +1,7 @@
 package chk
 
 import (
+	"go/types"
 	"golang.org/x/tools/go/ssa"
 )
 
@@ -55,6 +56,8 @@ type pathState struct {
 	// RetInst: for each finished inlined call, the instance numbers its helper's blocks had when it returned (copied on
 	// write; shared between clones).
 	RetInst map[*ssa.Call]map[*ssa.BasicBlock]int
+	// Induct: lower bounds of loop counters in an iteration reached through a back-edge (copied on write).
+	Induct map[*ssa.Phi]int64
 	// ACells (TabOpts.ArrayCells): element of a local array at a known index → the term last stored there.
 	ACells map[string]string
 }
@@ -124,6 +127,7 @@ func (ps *pathState) clone() *pathState {
 		n.Defers = append([]deferRec(nil), ps.Defers...)
 	}
 	n.RetInst = ps.RetInst
+	n.Induct = ps.Induct
 	if len(ps.ACells) > 0 {
 		n.ACells = make(map[string]string, len(ps.ACells))
 		for k, v := range ps.ACells {
@@ -322,6 +326,12 @@ func (ps *pathState) Resolve(v ssa.Value) ssa.Value {
 			return v
 		case *ssa.Phi:
 			if ps.Havoc[x.Block()] {
+				// a later iteration: if every back-edge carries one and the same value that the loop does not change
+				// (a constant, or something made before the loop: `first = false`, `descend = fullScan`), that is it
+				if inv := invariantBackEdge(x); inv != nil {
+					v = inv
+					continue
+				}
 				return v
 			}
 			pred := ps.Pred(x.Block())
@@ -568,4 +578,44 @@ func onlyFieldReads(a *ssa.Alloc) bool {
 		}
 	}
 	return true
+}
+
+// invariantBackEdge: x is a phi at a loop header; all its back-edge operands are the same constant, or the same value
+// defined in a block that dominates the header (so the loop does not redefine it). nil otherwise.
+func invariantBackEdge(x *ssa.Phi) ssa.Value {
+	h := x.Block()
+	var val ssa.Value
+	n := 0
+	for i, e := range x.Edges {
+		if i >= len(h.Preds) || !h.Dominates(h.Preds[i]) {
+			continue
+		}
+		n++
+		if c, ok := e.(*ssa.Const); ok {
+			if val == nil {
+				val = c
+				continue
+			}
+			if pc, ok := val.(*ssa.Const); ok && pc.Value != nil && c.Value != nil && pc.Value.ExactString() == c.Value.ExactString() && types.Identical(pc.Type(), c.Type()) {
+				continue
+			}
+			return nil
+		}
+		in, ok := e.(ssa.Instruction)
+		if !ok || in.Block() == nil || in.Block() == h || !in.Block().Dominates(h) {
+			return nil
+		}
+		if _, isPhi := e.(*ssa.Phi); isPhi {
+			return nil
+		}
+		if val == nil {
+			val = e
+		} else if val != e {
+			return nil
+		}
+	}
+	if n == 0 {
+		return nil
+	}
+	return val
 }
